@@ -746,6 +746,10 @@ func (fe *mslFE) parseMetalName(p *parser) Expr {
 		args := p.parseArgs()
 		return &mslCall{ExprBase: ExprBase{Pos: start.Pos}, Name: name, Args: args}
 	}
+	if p.peek().Kind == TIdent || p.isPunct("{") {
+		// used as a type; not a type this front end knows
+		start.Pos.unsupported(MSL, "type metal::%s (unknown to this front end)", name)
+	}
 	return &mslEnum{ExprBase: ExprBase{Pos: start.Pos}, Name: name}
 }
 
